@@ -1034,8 +1034,9 @@ bool BarnettSmartVTMF_dlog::VerifiableRemaskingProtocol_Verify
 	try
 	{
 		// verify the in-group properties
-		if (!CheckElement(c__1) || !CheckElement(c__2))
-			throw false;
+		if (!CheckElement(c_1) || !CheckElement(c_2) ||
+			!CheckElement(c__1) || !CheckElement(c__2))
+				throw false;
 		
 		// invoke CP(c'_1/c_1, c'_2/c_2, g, h; r) as verifier
 		if (!mpz_invert(foo, c_1, p))
